@@ -4,7 +4,7 @@ exit 0 iff every stable_pass test passes."""
 import json, os, subprocess, sys, tempfile, xml.etree.ElementTree as ET
 repo = os.environ.get("BIGTREE_REPO", "/repo")
 base = json.load(open("/root/.vp/BASELINE.json"))
-env = dict(os.environ); env.pop("BIGTREE_VERIF", None)
+env = dict(os.environ); env.pop("BIGTREE_VERIF", None); env["PYTHONPATH"] = repo
 with tempfile.TemporaryDirectory() as d:
     jx = os.path.join(d, "j.xml")
     subprocess.run(["/venv/bin/python", "-m", "pytest", "-ra", "-q", "-p", "no:cacheprovider",
